@@ -35,20 +35,20 @@ type Obligation struct {
 }
 
 type modLoc struct {
-	kind string // "cell", "fields", "mem", "ghost", "ghostidx", "allmem"
-	addr *Term  // cell address / struct ref / array ref
-	sort *Sort
-	name string // ghost name
-	idx  *Term
-	typ  types.Type
-	lo   *Term // mem: index window [lo, hi) in backing-array coordinates
-	hi   *Term
-	guard *Term                // location is modified only if guard holds (nil: always)
-	exceptFids  map[int]bool   // allexcept: field ids that stay unchanged
-	exceptMaps  map[string]bool // allexcept: map types (typeKey) that stay unchanged
-	exceptGhost map[string]bool // allexcept: ghost variables that stay unchanged
-	fids []int                 // each: affected field ids
-	cond func(obj *Term) *Term // each: membership condition (pre-state)
+	kind        string // "cell", "fields", "mem", "ghost", "ghostidx", "allmem"
+	addr        *Term  // cell address / struct ref / array ref
+	sort        *Sort
+	name        string // ghost name
+	idx         *Term
+	typ         types.Type
+	lo          *Term // mem: index window [lo, hi) in backing-array coordinates
+	hi          *Term
+	guard       *Term                 // location is modified only if guard holds (nil: always)
+	exceptFids  map[int]bool          // allexcept: field ids that stay unchanged
+	exceptMaps  map[string]bool       // allexcept: map types (typeKey) that stay unchanged
+	exceptGhost map[string]bool       // allexcept: ghost variables that stay unchanged
+	fids        []int                 // each: affected field ids
+	cond        func(obj *Term) *Term // each: membership condition (pre-state)
 }
 
 // exceptTarget says whether the cell address a is one of the protected (unchanged) cells of an allexcept location.
@@ -116,15 +116,26 @@ type State struct {
 	wm      *Term
 	frameWM *Term
 	mods    []modLoc
-	modsAny bool // no frame restriction (inlined callee of unrestricted caller)
+	modsAny bool    // no frame restriction (inlined callee of unrestricted caller)
 	locals  []*Term // refs of function-local heap allocations
+	priv    []*Term // those of them no callee can reach (see allocPrivate)
 	events  []string
+	// loops entered whose contract has its own modifies clause: inside them only that frame may be written
+	loopFrames []loopFrame
+}
+
+type loopFrame struct {
+	li       *loopInfo
+	outer    []modLoc
+	outerAny bool
 }
 
 func (s *State) clone() *State {
 	n := &State{heap: s.heap.clone(), wm: s.wm, frameWM: s.frameWM, mods: s.mods, modsAny: s.modsAny}
+	n.loopFrames = append([]loopFrame(nil), s.loopFrames...)
 	n.pc = append([]*Term(nil), s.pc...)
 	n.locals = append([]*Term(nil), s.locals...)
+	n.priv = append([]*Term(nil), s.priv...)
 	n.events = append([]string(nil), s.events...)
 	n.ghost = make(map[string]*Term, len(s.ghost))
 	for k, v := range s.ghost {
@@ -225,36 +236,36 @@ type loopInfo struct {
 type cellAddr struct{ a *ssa.Alloc }
 
 type FV struct {
-	P        *Program
-	fn       *ssa.Function
-	c        *Contract
-	l        layout
-	pkgPath  string
-	name     string
-	obls     []*Obligation
-	nfresh   int
-	loops    map[*ssa.BasicBlock]*loopInfo
-	entry    *State
-	entryEnv map[string]TV
-	ordinals map[string]map[ssa.Instruction]int
-	paths    int
-	trusted  map[string]bool
-	inlined  map[string]bool
-	errs     []string
-	pathNo   int
-	pow2Used bool
-	maxPaths int
-	sentinel map[string]int
-	extra    []string
-	used     map[string]bool
-	paramFirst []int
-	touched  map[string]bool // heap arrays written anywhere in the function (from the first pass)
-	eqHeap   *Heap
-	lets     map[string]TV
-	divmemo  map[[2]int][2]*Term
-	divlist  []divRec
+	P              *Program
+	fn             *ssa.Function
+	c              *Contract
+	l              layout
+	pkgPath        string
+	name           string
+	obls           []*Obligation
+	nfresh         int
+	loops          map[*ssa.BasicBlock]*loopInfo
+	entry          *State
+	entryEnv       map[string]TV
+	ordinals       map[string]map[ssa.Instruction]int
+	paths          int
+	trusted        map[string]bool
+	inlined        map[string]bool
+	errs           []string
+	pathNo         int
+	pow2Used       bool
+	maxPaths       int
+	sentinel       map[string]int
+	extra          []string
+	used           map[string]bool
+	paramFirst     []int
+	touched        map[string]bool // heap arrays written anywhere in the function (from the first pass)
+	eqHeap         *Heap
+	lets           map[string]TV
+	divmemo        map[[2]int][2]*Term
+	divlist        []divRec
 	entryRefAxioms bool
-	side     []*Term // type-invariant facts collected while evaluating specifications
+	side           []*Term // type-invariant facts collected while evaluating specifications
 }
 
 func (fv *FV) flushSide(st *State) {
@@ -482,6 +493,64 @@ func allocEscapes(a *ssa.Alloc) bool {
 	return false
 }
 
+// allocPrivate: the variable is only loaded and stored, directly or by closures of the same function that are
+// deferred or called in place: no callee under contract can reach it, so coarse callee frames leave it alone.
+func allocPrivate(a *ssa.Alloc) bool {
+	switch a.Type().(*types.Pointer).Elem().Underlying().(type) {
+	case *types.Struct, *types.Array:
+		return false
+	}
+	var okRefs func(refs []ssa.Instruction, self ssa.Value, depth int) bool
+	okRefs = func(refs []ssa.Instruction, self ssa.Value, depth int) bool {
+		for _, r := range refs {
+			switch x := r.(type) {
+			case *ssa.Store:
+				if x.Addr != self || x.Val == self {
+					return false
+				}
+			case *ssa.UnOp:
+				if x.Op != token.MUL {
+					return false
+				}
+			case *ssa.DebugRef:
+			case *ssa.MakeClosure:
+				if depth > 2 {
+					return false
+				}
+				// the closure itself must only be deferred or called in place
+				for _, cr := range *x.Referrers() {
+					switch y := cr.(type) {
+					case *ssa.Defer:
+						if y.Call.Value != x {
+							return false
+						}
+					case *ssa.Call:
+						if y.Call.Value != x {
+							return false
+						}
+					case *ssa.DebugRef:
+					default:
+						return false
+					}
+				}
+				fn := x.Fn.(*ssa.Function)
+				for i, b := range x.Bindings {
+					if b == self {
+						fvv := fn.FreeVars[i]
+						if !okRefs(*fvv.Referrers(), fvv, depth+1) {
+							return false
+						}
+					}
+				}
+			default:
+				return false
+			}
+		}
+		return true
+	}
+	return okRefs(*a.Referrers(), a, 0)
+}
+
 // ---------------------------------------------------------------- running a function body
 
 func (fv *FV) newFrame(fn *ssa.Function, depth int, top bool) *Frame {
@@ -503,6 +572,15 @@ func (fv *FV) execBody(fr *Frame, st *State, args []Value, bindings []Value) []O
 }
 
 func (fv *FV) runBlock(fr *Frame, st *State, b *ssa.BasicBlock, pred *ssa.BasicBlock) []Outcome {
+	// leaving a loop that has its own modifies clause restores the enclosing frame
+	for len(st.loopFrames) > 0 {
+		lf := st.loopFrames[len(st.loopFrames)-1]
+		if lf.li.head.Parent() != b.Parent() || lf.li.blocks[b] {
+			break
+		}
+		st.mods, st.modsAny = lf.outer, lf.outerAny
+		st.loopFrames = st.loopFrames[:len(st.loopFrames)-1]
+	}
 	if li := fv.loopFor(fr, b); li != nil {
 		if pred != nil && li.backPred[pred] {
 			fv.loopBack(fr, st, li)
@@ -803,6 +881,9 @@ func (fv *FV) execInstr(fr *Frame, st *State, in ssa.Instruction) {
 		fr.regs[x] = Scalar{ref}
 		fr.heapLocs[x] = ref
 		st.locals = append(st.locals, ref)
+		if allocPrivate(x) {
+			st.priv = append(st.priv, ref)
+		}
 	case *ssa.Store:
 		addr := fv.val(fr, x.Addr)
 		v := fv.val(fr, x.Val)
